@@ -145,6 +145,9 @@ package corebgp
 //@   requires [self] fsmSelf(f) && dialPending(f) && f.dialResultCh != nil && f.cancelDialFn != nil && f.connectRetryTimer != nil && !readerRunning(f)
 //@   ghostvar redials int = 0
 //@   at select#0 case 2 assert [waits_on_the_current_retry_timer] selchan == f.connectRetryTimer.C
+//@   at call cancelDialFn#0 assert [cancels_the_pending_dial] funcval == f.cancelDialFn
+//@   at call cancelDialFn#1 assert [cancels_the_pending_dial] funcval == f.cancelDialFn
+//@   at call cancelDialFn#2 assert [cancels_the_pending_dial] funcval == f.cancelDialFn
 //@   at call dialPeer#0 set redials = redials + 1
 //@   at call dialPeer#0 assert [redial_only_after_retry_timer_and_failed_dial] !dialPending(f) && timerOn(f.connectRetryTimer) && timerDur(f.connectRetryTimer) == f.peer.options.connectRetryTime
 //@   loop#0 invariant [pending] fsmSelf(f) && dialPending(f) && f.dialResultCh != nil && f.cancelDialFn != nil && f.connectRetryTimer != nil && !readerRunning(f)
@@ -313,6 +316,9 @@ package corebgp
 //@   requires [fits] len(b) <= 4077
 //@   at call Write#0 assert [one_update_message] len(arg1) == 19 + len(b) && markerOK(arg1) && be16(arg1, 16) == 19 + len(b) && arg1[18] == 2 && (forall i :: 0 <= i && i < len(b) ==> arg1[19+i] == b[i]) && arg0 == u.conn
 //@   modifies nwrites(u.conn), lastKind(u.conn)
+//@   ghostvar werr bool = false
+//@   at call Write#0 after set werr = result1 != nil
+//@   ensures [write_failure_is_reported] werr ==> err != nil
 //@   ensures [closed_writer_fails] old(chanClosed(u.closeCh)) ==> err != nil && nwrites(u.conn) == old(nwrites(u.conn))
 //@   ensures [success_is_one_write] err == nil ==> nwrites(u.conn) == old(nwrites(u.conn)) + 1 && lastKind(u.conn) == 2
 //@   ensures [at_most_one_write] nwrites(u.conn) <= old(nwrites(u.conn)) + 1
@@ -415,7 +421,18 @@ package corebgp
 //@   requires f != nil && f.conn != nil && f.readerDoneCh != nil && !chanClosed(f.readerDoneCh) && f.closeReaderCh != nil && f.readerErrCh != nil && f.readerMsgCh != nil
 //@   loop#0 invariant [reader] f.conn != nil && f.readerDoneCh != nil && !chanClosed(f.readerDoneCh) && f.closeReaderCh != nil && f.readerErrCh != nil && f.readerMsgCh != nil
 //@   loop#1 invariant [marker_so_far] 0 <= i && i <= 16 && len(header) == 19 && (forall j :: 0 <= j && j < i ==> header[j] == 255)
+//@   ghostvar mark int = 0
+//@   ghostvar hdrRead bool = false
+//@   ghostvar bodyRead bool = true
+//@   at select#5 case 1 set mark = allocmark()
+//@   loop#0 invariant [mark] mark <= allocmark()
 //@   at call ReadFull#0 assert [header_is_19_octets] len(arg1) == 19
+//@   at call ReadFull#0 after set hdrRead = result1 == nil
+//@   at call ReadFull#0 after set bodyRead = true
+//@   at call ReadFull#1 after set bodyRead = result1 == nil
+//@   at call ReadFull#1 assert [header_was_read_completely] hdrRead
+//@   at call messageFromBytes#0 assert [only_completely_read_messages_are_decoded] hdrRead && bodyRead
+//@   at call messageFromBytes#0 assert [body_buffer_is_not_shared_between_messages] arg0.arr >= mark && header.arr >= mark
 //@   at call ReadFull#1 assert [body_is_length_minus_19] len(arg1) == be16(header, 16) - 19 && len(arg1) > 0 && markerOK(header) && 19 <= be16(header, 16) && be16(header, 16) <= 4096
 //@   at select#1 case 1 assert [not_synchronized_fault_present] 0 <= i && i < 16 && header[i] != 255
 //@   at select#2 case 1 assert [bad_length_fault_present] markerOK(header) && (be16(header, 16) < 19 || be16(header, 16) > 4096)
